@@ -48,9 +48,26 @@ _FETCHED = []
 
 
 def _normalise(tree):
-    """Source normal form shared by all rules: ``t = <expr>`` immediately
+    """Source normal forms shared by all rules: ``t = <expr>`` immediately
     followed by ``return t`` (t used nowhere else in the function) reads as
-    ``return <expr>``."""
+    ``return <expr>``; a ``while True`` loop opened by ``if <t>: break``
+    reads as ``while not <t>``."""
+    # ``while True:`` whose first statement is ``if <t>: break`` reads as
+    # ``while not <t>:`` (no else clause on either)
+    for w in ast.walk(tree):
+        if isinstance(w, ast.While) and not w.orelse and \
+                isinstance(w.test, ast.Constant) and w.test.value is True \
+                and w.body and isinstance(w.body[0], ast.If) and \
+                not w.body[0].orelse and len(w.body[0].body) == 1 and \
+                isinstance(w.body[0].body[0], ast.Break):
+            t = w.body[0].test
+            if isinstance(t, ast.UnaryOp) and isinstance(t.op, ast.Not):
+                nt = t.operand
+            else:
+                nt = ast.UnaryOp(op=ast.Not(), operand=t)
+                ast.copy_location(nt, t)
+            w.test = nt
+            w.body = w.body[1:] or [ast.copy_location(ast.Pass(), w)]
     for fn in ast.walk(tree):
         if not isinstance(fn, (ast.FunctionDef, ast.AsyncFunctionDef)):
             continue
